@@ -38,6 +38,7 @@ type twinEnv struct {
 	Extra      bool   `json:"extra_reads"` // read-only queries and discarded cache-context executions between operations
 	Restart    bool   `json:"restart"`     // full-application twin only: the node is restarted (new application object, stores copied) at marked blocks
 	RestartAll bool   `json:"restart_all,omitempty"` // ... at every block boundary
+	Slow       bool   `json:"slow,omitempty"`        // full-application twin only: a slow node (sleeping logger) in the marked end blockers
 }
 
 type stepOut struct {
@@ -55,7 +56,7 @@ func twinEnvs(tier string) []twinEnv {
 	envs := []twinEnv{
 		{Name: "plain", FlagSet: false, GoMaxProcs: 1, TZ: "UTC"},
 		{Name: "flag+queries", FlagSet: true, FlagValue: "1", GoMaxProcs: 8, TZ: "Asia/Tokyo", Extra: true},
-		{Name: "flag-empty", FlagSet: true, FlagValue: "", GoMaxProcs: 2, TZ: "America/New_York", Restart: true},
+		{Name: "flag-empty", FlagSet: true, FlagValue: "", GoMaxProcs: 2, TZ: "America/New_York", Restart: true, Slow: true},
 		{Name: "plain+queries", FlagSet: false, GoMaxProcs: 4, TZ: "UTC", Extra: true, Restart: true, RestartAll: true},
 	}
 	if tier == "thorough" {
